@@ -13,7 +13,8 @@ THEOREMS = ['DG.rlist_append_inv', 'DG.rlist_setItem_inv', 'DG.rlist_delItem_inv
             'DG.graft_preserves_order', 'DG.graft_order_sound', 'DG.graft_order_complete', 'DG.exists_init_term',
             'DG.closure_spec', 'DG.reduction_spec', 'DG.closure_refines', 'DG.reduction_refines', 'DG.reduction_fewest',
             'DG.closure_most', 'DG.cloVisit_spec', 'DG.redVisit_spec', 'DG.le_reads', 'DG.eq_reads', 'DG.eqv_spec',
-            'DG.grafts_preserve_order', 'DG.flatten_round_eq', 'DG.dependencies_rec_reads', 'DG.depsLoop_spec']
+            'DG.grafts_preserve_order', 'DG.flatten_round_eq', 'DG.dependencies_rec_reads', 'DG.depsLoop_spec',
+            'DG.depends_rec_reads', 'DG.dependsLoop_total']
 BUDGET = {'quick': 1200, 'thorough': 30000}
 TIME_LIMIT = {'quick': 50, 'thorough': 700}
 RULE = ('edit histories of 1-30 operations over up to 6 graph variables (SSA: copy/invert/+ create a new variable) '
@@ -61,6 +62,46 @@ def reach_from(edges, x):
         seen.add(n)
         stack.extend(adj.get(n, ()))
     return seen
+
+
+class Hang(Exception):
+    pass
+
+
+def _hang(signum, frame):
+    raise Hang()
+
+
+def cpu_limited(func, seconds=10, code_name=None, max_lines=None):
+    """func(), or the string 'hang' when it has used `seconds` of processor time without returning, or executed more than
+    `max_lines` source lines in the frames of the function called `code_name` (a search that revisits what it has seen can
+    also grow its work list geometrically: the line budget stops it before memory does)"""
+    import signal
+    import sys
+    count = [0]
+
+    def local(frame, event, arg):
+        if event == 'line':
+            count[0] += 1
+            if count[0] > max_lines:
+                raise Hang()
+        return local
+
+    def tracer(frame, event, arg):
+        return local if frame.f_code.co_name == code_name else None
+    old = signal.signal(signal.SIGPROF, _hang)
+    signal.setitimer(signal.ITIMER_PROF, seconds)
+    if code_name:
+        sys.settrace(tracer)
+    try:
+        return func()
+    except Hang:
+        return 'hang'
+    finally:
+        if code_name:
+            sys.settrace(None)
+        signal.setitimer(signal.ITIMER_PROF, 0)
+        signal.signal(signal.SIGPROF, old)
 
 
 def acyclic(nodes, edges):
@@ -350,8 +391,7 @@ def gen(rng, tier, run):
         if nodes:
             x, y = rng.choice(sorted(nodes)), rng.choice(sorted(nodes))
             ops.append(['depends', v, x, y, False])
-            if acyclic(nodes, edges):
-                ops.append(['depends', v, x, y, True])
+            ops.append(['depends', v, x, y, True])      # on cyclic graphs too: the search must come back
     return {'ops': ops}
 
 
@@ -537,7 +577,9 @@ def run_impl(case, run):
                 elif name == 'topo':
                     out = {'order': [nid(n) for n in g.topological_sort()]}
                 elif name == 'depends':
-                    out = bool(g.depends(obj(op[2]), obj(op[3]), recurse=op[4]))
+                    # at most one wave per node: 12 lines per wave is generous for any reasonable loop body
+                    out = cpu_limited(lambda: bool(g.depends(obj(op[2]), obj(op[3]), recurse=op[4])),
+                                      code_name='depends', max_lines=12 * (len(g) + 2) + 20)
                 elif name == 'le':
                     out = bool(g <= gvars[op[2]])
                 elif name == 'eq':
